@@ -349,7 +349,39 @@ func (in *instr) run() {
 				if obj := info.Uses[sel.Sel]; obj != nil && obj.Pkg() != nil {
 					full := obj.Pkg().Path() + "." + obj.Name()
 					switch full {
-					case "maps.Keys", "maps.Values", "maps.All", "golang.org/x/exp/maps.Keys", "golang.org/x/exp/maps.Values":
+					case "maps.Keys", "maps.Values", "maps.All":
+						// the iterator over a map is routed like a range statement:
+						// maps.Values(m) -> simrt.RouteValues(maps.Values(m), m, "site")
+						routed := false
+						if len(x.Args) == 1 {
+							if tv, ok := info.Types[x.Args[0]]; ok && isMap(tv.Type) {
+								pos := in.fset.Position(x.Args[0].Pos())
+								if src, err := os.ReadFile(pos.Filename); err == nil {
+									arg := string(src[in.off(x.Args[0].Pos()):in.off(x.Args[0].End())])
+									fn := curFunc
+									if fn == "" {
+										fn = "init"
+									}
+									k := in.perFunc[fn]
+									in.perFunc[fn] = k + 1
+									id := fmt.Sprintf("%s.%s#%d", in.pkg.PkgPath, fn, k)
+									keyT := ""
+									if m, ok := tv.Type.Underlying().(*types.Map); ok {
+										keyT = m.Key().String()
+									}
+									in.sites = append(in.sites, site{ID: id, File: pos.Filename, Line: pos.Line, Key: keyT})
+									in.add(x.Pos(), "simrt.Route"+obj.Name()+"(")
+									in.add(x.End(), fmt.Sprintf(", %s, %q)", arg, id))
+									touched = true
+									routed = true
+								}
+							}
+						}
+						if !routed {
+							in.unroutable++
+							fmt.Fprintf(os.Stderr, "instrument: %s: call to %s is not routed\n", in.fset.Position(x.Pos()), full)
+						}
+					case "golang.org/x/exp/maps.Keys", "golang.org/x/exp/maps.Values":
 						in.unroutable++
 						fmt.Fprintf(os.Stderr, "instrument: %s: call to %s is not routed\n", in.fset.Position(x.Pos()), full)
 					}
